@@ -90,7 +90,13 @@ type Tree struct {
 
 	argInterner    *ArgInterner
 	stringInterner *StringInterner
+
+	pieces int // strings concatenated with '+' so far in the current argument
 }
+
+// maxStringPieces is the largest number of strings joined by '+' that is
+// read as one argument (every piece costs a level of recursion).
+const maxStringPieces = 10000
 
 func Parse(name, text string, extCard NodeCardinality) (*Tree, error) {
 	return ParseWithInterners(name, text, extCard, NewStringInterner(), NewArgInterner())
@@ -586,6 +592,7 @@ func (t *Tree) argument(ctx string) string {
 		s = i.val
 	case itemQuote:
 		i = t.nextNonSpace()
+		t.pieces = 0
 		s = t.argumentQuoted(ctx)
 	default:
 		t.unexpected(i, ctx)
@@ -636,6 +643,9 @@ func (t *Tree) argumentConcatenate(ctx string) string {
 		return s
 	case itemPlus:
 		i = t.nextNonSpace()
+		if t.pieces++; t.pieces > maxStringPieces {
+			t.errorf("more than %d strings concatenated in %s", maxStringPieces, ctx)
+		}
 		// must be followed by [sep] quote
 		t.expect(itemQuote, ctx)
 		s = t.argumentQuoted(ctx)
